@@ -56,6 +56,8 @@ Inductive form :=
 | Signal (c : cls)                             (* a form that signals an error of class c *)
 | Incf (x : nat)                               (* (setq vx (+ vx 1)) on one of the global counters *)
 | Lt (x : nat) (k : Z)                         (* (< vx k) *)
+| Setv (x : nat) (z : Z)                       (* (setq vx z): lets a program rewind a counter, so that a function
+                                                  can be re-entered on several calls *)
 | CallList (args : list form)                  (* (list a ...): an ordinary function call *)
 | Progn (body : list form)
 | When (c : form) (body : list form)
@@ -110,6 +112,7 @@ Definition fopen (f : N) (st : state) := set_files (files st + 8 ^ f)%N st.
 Definition fclose (f : N) (st : state) := set_files (files st - 8 ^ f)%N st.
 Definition init_state (vs : list Z) : state := {| trace := []; vars := vs; locks := 0%N; files := 0%N |}.
 
+Definition NVARS : nat := 2.      (* the global counters v0, v1 *)
 Definition lit_val (l : lit) : value := match l with LNil => VNil | LT => VT | LInt z => VInt z end.
 Definition is_nil (v : value) : bool := match v with VNil => true | _ => false end.
 Definition is_ret (v : value) : bool := match v with VRetM _ _ => true | _ => false end.
@@ -236,6 +239,7 @@ Section M.
           | Some z => (MVal (if (z <? k)%Z then VT else VNil), st)
           | None => (MErr CUnbound, st)
           end
+      | Setv x z => (MVal (VInt z), set_var x z st)   (* x < NVARS (wf); setq of a new name would create it *)
       | CallList args =>
           match m_args (ev sc tb) args [] st with
           | (inr vs, st1) => (MVal (mk_list vs), st1)
